@@ -248,3 +248,8 @@ func NonEmpty(x M) M {
 func Empty(x M) M {
 	return OneOf(Bin("==", Len(x), Const("0")), Bin("<=", Len(x), Const("0")), Bin("<", Len(x), Const("1")))
 }
+
+// NonZero matches x != 0 on an unsigned / non-negative integer, also written 0 < x or 1 <= x.
+func NonZero(x M) M {
+	return OneOf(Bin("!=", x, Const("0")), Bin("<", Const("0"), x), Bin("<=", Const("1"), x))
+}
